@@ -44,6 +44,26 @@ def src_of(t, kinds):
     return f"({src_of(t[1], kinds)} ? {src_of(t[2], kinds)} : {src_of(t[3], kinds)})"
 
 
+def src_min(t, kinds, ctx="expr"):
+    """the same tree written with the fewest parentheses CEL's grammar allows (`?:` right-associative and lowest, then `||`, then `&&`,
+    both left-associative): un-parenthesised chains `a || b || c`, `a && b && c`, `c1 ? x : c2 ? y : z`"""
+    if t[0] == "leaf":
+        return leaf_src(kinds[t[1]], t[1])
+    if t[0] == "not":
+        return f"!({src_min(t[1], kinds)})" if t[1][0] != "leaf" else f"!{leaf_src(kinds[t[1][1]], t[1][1])}"
+    if t[0] == "and":
+        s = f"{src_min(t[1], kinds, 'and-left')} && {src_min(t[2], kinds, 'and-right')}"
+        return s if ctx in ("expr", "or-left", "or-right", "and-left") else f"({s})"
+    if t[0] == "or":
+        s = f"{src_min(t[1], kinds, 'or-left')} || {src_min(t[2], kinds, 'or-right')}"
+        return s if ctx in ("expr", "or-left") else f"({s})"
+    if t[0] == "cond":
+        s = f"{src_min(t[1], kinds, 'or-left')} ? {src_min(t[2], kinds, 'or-left')} : {src_min(t[3], kinds, 'expr')}"
+        return s if ctx == "expr" else f"({s})"
+    raise ValueError(t)
+
+
+
 def t_and(a, b):
     if a == F or b == F:
         return F
@@ -108,10 +128,10 @@ def classify(kind, v):
     return None, None
 
 
-def program(tree, kinds, runner, xs):
+def program(tree, kinds, runner, xs, flat=False):
     from celpy import celtypes as ct
     t = _tup(tree)
-    src = src_of(t, kinds)
+    src = src_min(t, kinds) if flat else src_of(t, kinds)
     exp, expval = spec(t, kinds, xs)
     b = {}
     for i, kd in enumerate(kinds):
